@@ -31,6 +31,7 @@ def run_property(prop: str, tier: str, overlay: Optional[Dict[str, str]] = None,
     except AnalysisError as e:
         late = e
     siblings.option_forward(ctx, anchor_modules(prop, prog))
+    siblings.module_state(ctx, anchor_modules(prop, prog))
     if late is not None:
         raise late
     return ctx
@@ -189,6 +190,9 @@ def main(argv: List[str]) -> None:
         hits, new = [], []
         for f in ctx.findings:
             (hits if f.key in known_keys else new).append(f)
+        if late_error is not None and not new and not args.replay:
+            # only recorded findings were established before the analysis failed: that is an incomplete run, not a pass
+            raise AnalysisError(late_error)
         if args.replay:
             with open(args.replay) as fh:
                 rep = json.load(fh)
